@@ -291,7 +291,12 @@ pub fn run_case(sub: u64, histories: usize, scratch: &Path, acc: &mut Acc) {
         if i == 0 {
             h.style = Style::Fixed([1, 3, 5, 7][rng.below(4)]); // always one run that splits code units
         }
-        strategies.push((Strategy::Reader(h), gen_knobs(&mut rng)));
+        let mut k = gen_knobs(&mut rng);
+        if i > 0 && rng.chance(1, 3) {
+            // a searcher used before (the earlier search complete, stopped, or failed at some read)
+            k.warm = rng.next() | 1;
+        }
+        strategies.push((Strategy::Reader(h), k));
     }
     if rng.chance(1, 10) || ec.case.data.len() > 65536 {
         strategies.push((Strategy::Path { mmap: true }, Knobs { cloned: rng.chance(1, 2), ..Knobs::default() }));
